@@ -49,6 +49,11 @@ def handle (ws : List String) : String :=
     match parseTree rest with
     | some (t, []) => ucanon t
     | _ => "bad-op"
+  -- ucanon2 <tree>: the same canonical unrooted tree, children in mask order, printed structurally (`ucanonT`)
+  | "ucanon2" :: rest =>
+    match parseTree rest with
+    | some (t, []) => ucanon2 t
+    | _ => "bad-op"
   | _ => "bad-op"
 
 def main : IO Unit := do driverLoop (← IO.getStdin) handle
